@@ -12,7 +12,7 @@ From Coq Require Import List NArith ZArith.
 From Coq.Strings Require Import Byte.
 From SP Require Import Bytes Errors Armor Streams StreamProofs FaultProofs.
 From Coq Require String.
-From SP Require BaseX GoLang GoLang2 GoAst GoAstStreams GoAstProofs5b.
+From SP Require BaseX GoLang GoLang2 GoAst GoAstEnc GoAstProofs5b.
 Import ListNotations.
 
 Theorem C14_punctuated_reader_reports_fault (s : source) (sizes : list nat) (done : list bytes) (cur : bytes) (e : err) :
@@ -45,7 +45,7 @@ Proof. exact (cr_drain_complete l sizes). Qed.
 (* ---- source ties: the sticky error of the streaming base-X ENCODER (/repo/encoding/basex/stream.go),
         lemmas of proofs/GoAstProofs5b.v ---- *)
 (* WRITE side, one layer proved on the translated source: the terms f_basex_encoder_Write / _Close are generated on
-   every run from the Go syntax trees of /repo/encoding/basex/stream.go (gen/GoAstStreams.v) and run by the evaluator
+   every run from the Go syntax trees of /repo/encoding/basex/stream.go (gen/GoAstEnc.v) and run by the evaluator
    of model/GoLang2.v ([run2] = run_func2 with the fuel F as a parameter).  The *encoder object is [g_obj en o],
    o : gobj = (e.err, e.buf, e.nbuf, e.out, e.w); the underlying io.Writer is a log of the Write calls made plus a
    schedule of the errors it will return.  An error of the underlying writer is stored in e.err and returned
@@ -56,7 +56,7 @@ Proof. exact (cr_drain_complete l sizes). Qed.
    and Write/Close keep: len(e.buf) = base256BlockLen, len(e.out) = K * baseXBlockLen); e.err = Some x; and the
    evaluator's fuel bound (a bound on the evaluator, not on the Go code). *)
 Section C14_source.
-Import BaseX GoLang GoLang2 GoAst GoAstStreams GoAstProofs5b String.StringSyntax.
+Import BaseX GoLang GoLang2 GoAst GoAstEnc GoAstProofs5b String.StringSyntax.
 Variable en : encoding.
 Variable K : nat.
 Hypothesis Hibl : (0 < ibl_nat en)%nat.
